@@ -28,7 +28,6 @@ CLAIMS = {
  "C15": ("Theorems over all admissible histories with orders at the level's price: the four counters equal (mod 2^64) the event counts an observer derives from return values; exact while they fit. "
          "Sequential half; the concurrent half is not yet built. Tie: E-seq/E-seq0, counters compared and judged by C15.ok after every op.",
          "Lean 4 proof by loop invariant + induction over histories; differential correspondence with Lean judge", "DESIGN §6 C15"),
-}
  "C04": ("The full property is false of the crate (two characterised deviations, recorded as known findings F1/F2 with Lean counterexamples evaluated on the model and replayed on the crate). Proved: C04_partial — every maker visit takes the head of the hand-out order; leave / replenish-requeue / add / cancel / same-price amend act on the hand-out order exactly as the property prescribes unless F1 or F2. "
          "Not proved: composition of the per-visit lemmas over a whole match call. Tie: E-seq maker sequences compared with the model, deviations classified by the driver.",
          "Lean 4 proof (refinement lemmas on the hand-out order, counterexamples by evaluation) + differential correspondence; known findings", "DESIGN §6 C04"),
